@@ -38,7 +38,7 @@ def constants(tier: str) -> dict:
     if tier == "quick":
         return dict(GaussCounts=[1, 2], ValVars=[1, 3], ScaleOpts=[True], ShiftVars=[0, 1], COrders=[0, 1, 2], WOrders=[0, 1], WOrderCap=1,
                     NormOpts=[True], BacksweepOpts=[False], AxisVars=[1], WithErrors=False, WithAsym=False,
-                    Kinds=KINDS, OscCounts=[1, 2, 3], RatePats=[1, 3], FreqVars=[1], ArtOrders=[1, 3],
+                    Kinds=KINDS, OscCounts=[1, 2, 3], RatePats=[2, 3], FreqVars=[1], ArtOrders=[1, 3],      # rate row 2 starts with a damping rate of exactly 0
                     BClasses=list(range(0, 11)), AxisModes=["plain", "scaled", "inverted"])
     return dict(GaussCounts=[1, 2, 3], ValVars=[1, 2, 3], ScaleOpts=[True], ShiftVars=[0, 1], COrders=[0, 1, 2, 3], WOrders=[0, 1], WOrderCap=1,
                 NormOpts=[True], BacksweepOpts=[False], AxisVars=[1], WithErrors=False, WithAsym=False,
